@@ -1,7 +1,6 @@
 package main
 
 import (
-	"os"
 	"fmt"
 	"go/token"
 	"go/types"
@@ -1493,9 +1492,6 @@ func (c *Ctx) inlineTranscripts(m *ctorModel) map[string]*trSite {
 		}
 	}
 	for _, a := range aggs {
-		if os.Getenv("DBG_TR") != "" {
-			fmt.Fprintf(os.Stderr, "agg sum=%s first=%s paths=%d/%d seqs=%v\n", c.Pos(a.sum), c.Pos(a.first), a.paths, nOK, a.seqs)
-		}
 		sumCall := byPos[a.sum]
 		firstCall := byPos[a.first]
 		if sumCall == nil || firstCall == nil || !sumCall.Call.IsInvoke() || !firstCall.Call.IsInvoke() {
